@@ -171,6 +171,18 @@ def runCase (c : S) : List String := Id.run do
           | none =>
             let (str, r'') := stateStr hr.r
             st := { st with runners := update st.runners j { hr with r := r'' }, out := st.out.push ("RESTORE ERR" ++ str) }
+      | "restorenil" =>
+        match lookup st.runners j with
+        | none => st := { st with out := st.out.push "NORUNNER" }
+        | some hr =>
+          let s : Snapshot := ⟨[], [], (a.getD 1 (.atom "")).str⟩
+          match hr.r.restore prog s with
+          | some r' =>
+            let (str, r'') := stateStr r'
+            st := { st with runners := update st.runners j { r := r'' }, out := st.out.push ("RESTORE OK" ++ str) }
+          | none =>
+            let (str, r'') := stateStr hr.r
+            st := { st with runners := update st.runners j { hr with r := r'' }, out := st.out.push ("RESTORE ERR" ++ str) }
       | "hset" =>
         match lookup st.runners j with
         | none => st := { st with out := st.out.push "NORUNNER" }
